@@ -116,10 +116,11 @@ Definition job_apply (keylen : N) (j : job_enc) (o : enc_opt) : job_enc :=
          j_r3_assemble := j_r3_assemble j; j_r3_annotate_and_form := j_r3_annotate_and_form j;
          j_r3_form_filling := j_r3_form_filling j; j_r3_modify_other := j_r3_modify_other j;
          j_r3_print := j_r3_print j |}
-  | OModify MdAll => set_mod j true true true true
-  | OModify MdAnnotate => set_mod j true true true false
-  | OModify MdForm => set_mod j true false true false
-  | OModify MdAssembly => set_mod j true false false false
+  (* EncConfig::modify after fix 8ca3265e: only clears the flags its value stands for *)
+  | OModify MdAll => j
+  | OModify MdAnnotate => set_mod j (j_r3_assemble j) (j_r3_annotate_and_form j) (j_r3_form_filling j) false
+  | OModify MdForm => set_mod j (j_r3_assemble j) false (j_r3_form_filling j) false
+  | OModify MdAssembly => set_mod j (j_r3_assemble j) false false false
   | OModify MdNone => set_mod j false false false false
   | OAnnotate y =>
       if keylen =? 40 then
@@ -186,11 +187,46 @@ Definition manual_bits (R : N) (o : enc_opt) : list N :=
   | _ => []
   end.
 
-(* "Start with all bits set except bits 1 and 2, which are cleared; clear bits as described in the table" *)
-Definition manual_P (R : N) (opts : list enc_opt) : N :=
-  let cleared := flat_map (manual_bits R) opts in
+(* manual/cli.rst, --modify: "modify-opt values map to other combinations of options as follows:
+   all: allow full modification (the default); annotate: --modify-other=n; form: --modify-other=n --annotate=n;
+   assembly: --modify-other=n --annotate=n --form=n; none: --modify-other=n --annotate=n --form=n --assemble=n" *)
+Definition manual_expand (o : enc_opt) : list enc_opt :=
+  match o with
+  | OModify MdAll => []
+  | OModify MdAnnotate => [OModifyOther false]
+  | OModify MdForm => [OModifyOther false; OAnnotate false]
+  | OModify MdAssembly => [OModifyOther false; OAnnotate false; OForm false]
+  | OModify MdNone => [OModifyOther false; OAnnotate false; OForm false; OAssemble false]
+  | _ => [o]
+  end.
+
+(* cli.rst describes each y/n option as "Enable/disable ...": when the same option is given again, the later
+   occurrence stands. Which option an argument sets: *)
+Definition opt_kind (o : enc_opt) : N :=
+  match o with
+  | OAccessibility _ => 0 | OExtract _ => 1 | OPrintYN _ => 2 | OPrint _ => 3 | OModifyYN _ => 4 | OModify _ => 5
+  | OAnnotate _ => 6 | OAssemble _ => 7 | OForm _ => 8 | OModifyOther _ => 9
+  end.
+Fixpoint last_occurrences (l : list enc_opt) : list enc_opt :=
+  match l with
+  | [] => []
+  | o :: t => if existsb (fun o' => opt_kind o' =? opt_kind o) t then last_occurrences t else o :: last_occurrences t
+  end.
+
+Definition P_of_cleared (cleared : list N) : N :=
   fold_left (fun acc bit => if existsb (N.eqb bit) cleared || (bit <=? 2) then acc else acc + 2 ^ (bit - 1))
             (map N.of_nat (seq 1 32)) 0.
+
+(* encryption.rst: "Start with all bits set except bits 1 and 2, which are cleared; clear bits as described in
+   the table", applied to the options in effect (--modify expanded as cli.rst says, later occurrence of an option
+   standing) *)
+Definition manual_P (R : N) (opts : list enc_opt) : N :=
+  P_of_cleared (flat_map (manual_bits R) (last_occurrences (flat_map manual_expand opts))).
+
+(* the most literal reading of the table alone: every argument clears its bits, a "=y" argument does nothing.
+   It differs from manual_P only when an option re-enables what an earlier argument disabled. *)
+Definition manual_P_union (R : N) (opts : list enc_opt) : N :=
+  P_of_cleared (flat_map (manual_bits R) opts).
 
 (* ISO 32000: minimum version per scheme: R2 -> 1.1 (qpdf asks for 1.3), R3 -> 1.4, R4 -> 1.5 (crypt
    filters), AESV2 -> 1.6, R5 -> 1.7 ExtensionLevel 3, R6 -> 1.7 ExtensionLevel 8 (or 2.0) *)
@@ -218,15 +254,27 @@ Definition opts_R2 : list (list enc_opt) :=
 (* 128/256-bit without --modify: every combination of the seven other options: 2916 lists *)
 Definition opts_R3_granular : list (list enc_opt) :=
   cart [opt3 OAccessibility; opt3 OExtract; print_choices; opt3 OAssemble; opt3 OAnnotate; opt3 OForm; opt3 OModifyOther].
-(* with --modify first and the granular options only ever restricting further: 2880 lists *)
+(* with --modify before, resp. after, the seven other options: 2 * 14580 lists *)
 Definition opts_R3_modify_first : list (list enc_opt) :=
   cart [modify_choices; opt3 OAccessibility; opt3 OExtract; print_choices;
-        optn OAssemble; optn OAnnotate; optn OForm; optn OModifyOther].
+        opt3 OAssemble; opt3 OAnnotate; opt3 OForm; opt3 OModifyOther].
+Definition opts_R3_modify_last : list (list enc_opt) :=
+  cart [opt3 OAccessibility; opt3 OExtract; print_choices;
+        opt3 OAssemble; opt3 OAnnotate; opt3 OForm; opt3 OModifyOther; modify_choices].
 (* every order-sensitive pair: a granular option before or after --modify: 2 * 5 * 4 * 2 = 80 lists *)
 Definition granular_opts : list enc_opt :=
   flat_map (fun y => [OAssemble y; OAnnotate y; OForm y; OModifyOther y]) [true; false].
 Definition opts_R3_pairs : list (list enc_opt) :=
   flat_map (fun m => flat_map (fun g => [m ++ [g]; g :: m]) granular_opts) modify_choices.
+(* an option given twice with different values, alone and around a --modify: 8 + 8 * 5 * 3 lists *)
+Definition opts_R3_repeats : list (list enc_opt) :=
+  flat_map (fun f => flat_map (fun y => [f y; f (negb y)] ::
+                        flat_map (fun m => [m ++ [f y; f (negb y)]; f y :: m ++ [f (negb y)]; [f y; f (negb y)] ++ m]) modify_choices)
+                      [true; false])
+           [OAssemble; OAnnotate; OForm; OModifyOther].
+Definition opts_R3_all : list (list enc_opt) :=
+  opts_R3_granular ++ opts_R3_modify_first ++ opts_R3_modify_last ++ opts_R3_pairs ++ opts_R3_repeats.
 
 Definition keylen_of_R (R : N) : N := if R =? 2 then 40 else if R <=? 4 then 128 else 256.
 Definition P_agrees (R : N) (opts : list enc_opt) : bool := job_P (keylen_of_R R) R opts =? manual_P R opts.
+Definition P_agrees_union (R : N) (opts : list enc_opt) : bool := job_P (keylen_of_R R) R opts =? manual_P_union R opts.
